@@ -134,6 +134,7 @@ func c03build() {
 		for _, op := range []fsx.Step{{K: "H.Write", Data: "late"}, {K: "H.WriteAt", Data: "late", Off: 1}, {K: "H.Truncate", Off: 1}, {K: "H.Chmod", Perm: 0o600}, {K: "H.Chtimes", MTime: 1_500_000_000}, {K: "H.Sync"}, {K: "H.Close"}} {
 			add("stale-handle:parent-removed:"+op.K, append(append([]fsx.Step(nil), dir...), fsx.Step{K: "Open", P: "a/b/c", Flag: os.O_RDWR}, fsx.Step{K: "RemoveAll", P: "a"}, op, fsx.Step{K: "H.Close"})...)
 			add("stale-handle:parent-now-file:"+op.K, append(append([]fsx.Step(nil), dir...), fsx.Step{K: "Open", P: "a/b/c", Flag: os.O_RDWR}, fsx.Step{K: "RemoveAll", P: "a"}, fsx.Step{K: "WriteFullFile", P: "a", Data: "f", Perm: 0o644}, op, fsx.Step{K: "H.Close"})...)
+			add("stale-handle:dir-at-its-path:"+op.K, []fsx.Step{{K: "WriteFullFile", P: "c", Data: "file", Perm: 0o644}, {K: "Open", P: "c", Flag: os.O_RDWR}, {K: "Remove", P: "c"}, {K: "Mkdir", P: "c", Perm: 0o755}, {K: "WriteFullFile", P: "c/ab", Data: "child", Perm: 0o644}, op, {K: "H.Close"}}...)
 			add("stale-handle:renamed-away:"+op.K, append(append([]fsx.Step(nil), dir...), fsx.Step{K: "Open", P: "a/b/c", Flag: os.O_RDWR}, fsx.Step{K: "Rename", P: "a", P2: "c"}, op, fsx.Step{K: "H.Close"})...)
 		}
 		add("rename-across-mount-points", fsx.Step{K: "WriteFullFile", P: "c", Data: "top", Perm: 0o644}, fsx.Step{K: "Rename", P: "c", P2: "a/c"}, fsx.Step{K: "Rename", P: "a/c", P2: "a/b/c"},
@@ -228,8 +229,8 @@ func c03run(env *core.Env, idx int) core.CaseResult {
 				st = gen.Namespace(tree, !sub.viewTop)
 				if gen.R.Intn(5) == 0 {
 					st = c03handleStep(gen, tree)
-					if o, ok := slots[st.Slot]; ok && strings.HasPrefix(st.K, "H.") && st.K != "H.Close" && (o[1] == "file" || o[1] == "created") {
-						if now := fsx.PathSit(sub.fs, o[0]); (now == "noparent" || now == "belowfile") && env.Known.KnownSituation("C03", fmt.Sprintf("C03|%s|H.save|handle:file-whose-parent-is-gone|", subjKind(sname))) {
+					if o, ok := slots[st.Slot]; ok && strings.HasPrefix(st.K, "H.") && st.K != "H.Close" {
+						if now := fsx.PathSit(sub.fs, o[0]); c03stale(o[1], now) && env.Known.KnownSituation("C03", fmt.Sprintf("C03|%s|H.save|handle:whose-place-is-gone|", subjKind(sname))) {
 							st.K = "H.Close" // (F20) do not save through a handle whose directory chain is gone
 						}
 					}
@@ -252,9 +253,10 @@ func c03run(env *core.Env, idx int) core.CaseResult {
 			if o, ok := slots[st.Slot]; ok {
 				now := fsx.PathSit(sub.fs, o[0])
 				sit = fmt.Sprintf("handle:opened=%s,now=%s", o[1], now)
-				if (o[1] == "file" || o[1] == "created") && (now == "noparent" || now == "belowfile") {
-					// one situation (F20): a file handle whose directory chain is gone; which mutator saves the record back does not matter
-					sit = "handle:file-whose-parent-is-gone"
+				if c03stale(o[1], now) {
+					// one situation (F20): a file handle whose place in the tree is gone (no parent any more, or a directory
+					// with children stands at its path now); which mutator saves the record back does not matter
+					sit = "handle:whose-place-is-gone"
 					sigOp = "H.save"
 				}
 			}
@@ -336,6 +338,15 @@ func c03handleStep(g *fsx.Gen, tree fsx.Snap) fsx.Step {
 	default:
 		return fsx.Step{K: "H.Close", Slot: slot}
 	}
+}
+
+// c03stale: the handle's place in the tree is gone - the directories above its path were removed or replaced by a
+// file, or (for a file handle) a directory stands at its path now. Saving its record back there is F20's defect.
+func c03stale(openedOn, now string) bool {
+	if now == "noparent" || now == "belowfile" {
+		return true
+	}
+	return (openedOn == "file" || openedOn == "created") && now == "dir"
 }
 
 // subjKind groups subjects for signatures: the store behind a plain keyvalue.FS does not matter to the tree invariant.
